@@ -271,10 +271,8 @@ func scaleStreams(c *Config) {
 		cases = append(cases, sc{fmt.Sprintf("lin-%d", k), stamp(c, linearShape(k), tAsc), r.Intn(2), one(), none, false})
 	}
 	if big {
-		// 2^15 and 2^16 commit steps
-		cases = append(cases,
-			sc{"lin-32769", stamp(c, linearShape(32769), tAsc), 0, one(), none, false},
-			sc{"lin-65537", stamp(c, linearShape(65537), tAsc), 1, one(), none, false})
+		// 2^15 commit steps (the log oracle is quadratic in the plan length: about 100 s here; 2^16+1 would take a quarter of an hour)
+		cases = append(cases, sc{"lin-32769", stamp(c, linearShape(32769), tAsc), 1, one(), none, false})
 		cases = append(cases,
 			sc{"items-30-long", stamp(c, periodShape(3000, 17, 2), tRand), 2, rich(30, true), none, false},
 			sc{"wide-200", stamp(c, wideShape(n, 200), tRand), 5, chain3(c), none, false},
